@@ -19,6 +19,7 @@ import (
 	"errors"
 	"fmt"
 	"io"
+	"math"
 	"net"
 	"os"
 	"sync"
@@ -242,7 +243,8 @@ type packetConn struct {
 	lastPacket *packet
 	lastBuf    *bytes.Reader
 
-	// stores time.Time as Unix as Read maybe called concurrently with SetReadDeadline
+	// stores time.Time as Unix nanoseconds (noDeadline for the zero time) as Read maybe called
+	// concurrently with SetReadDeadline
 	deadline      atomic.Int64
 	deadlineTimer *time.Timer
 	idleTimer     *time.Timer
@@ -250,7 +252,11 @@ type packetConn struct {
 
 // SetReadDeadline sets the deadline to wait for data from the underlying net.PacketConn.
 func (pc *packetConn) SetReadDeadline(t time.Time) error {
-	pc.deadline.Store(t.Unix())
+	if t.IsZero() {
+		pc.deadline.Store(noDeadline)
+	} else {
+		pc.deadline.Store(t.UnixNano())
+	}
 	if pc.deadlineTimer != nil {
 		pc.deadlineTimer.Reset(time.Until(t))
 	} else {
@@ -262,8 +268,13 @@ func (pc *packetConn) SetReadDeadline(t time.Time) error {
 // TODO: idle timeout should be configurable per server
 const udpAssociationIdleTimeout = 30 * time.Second
 
-func isDeadlineExceeded(t time.Time) bool {
-	return !t.IsZero() && t.Before(time.Now())
+// noDeadline is what packetConn.deadline holds when the read deadline is the zero time.
+const noDeadline = math.MinInt64
+
+// isDeadlineExceeded reports whether a deadline in Unix nanoseconds has passed. Whole seconds are
+// not enough: a deadline later in the current second would count as exceeded already.
+func isDeadlineExceeded(d int64) bool {
+	return d != noDeadline && d < time.Now().UnixNano()
 }
 
 func (pc *packetConn) Read(b []byte) (n int, err error) {
@@ -279,7 +290,7 @@ func (pc *packetConn) Read(b []byte) (n int, err error) {
 		return
 	}
 	// check deadline
-	if isDeadlineExceeded(time.Unix(pc.deadline.Load(), 0)) {
+	if isDeadlineExceeded(pc.deadline.Load()) {
 		return 0, os.ErrDeadlineExceeded
 	}
 	// set or refresh idle timeout
@@ -311,7 +322,7 @@ func (pc *packetConn) Read(b []byte) (n int, err error) {
 			return
 		case <-pc.deadlineTimer.C:
 			// deadline may change during the wait, recheck
-			if isDeadlineExceeded(time.Unix(pc.deadline.Load(), 0)) {
+			if isDeadlineExceeded(pc.deadline.Load()) {
 				return 0, os.ErrDeadlineExceeded
 			}
 			// next loop will run. Don't call Read as that will reset the idle timer.
